@@ -1,7 +1,7 @@
 (* remove_data (strict and non-strict) and remove_key preserve the index invariant. *)
 From Coq Require Import Sorting.Sorted.
 From Stam Require Import Base.Tac Base.ListAux Model.Offset Model.Store Model.StoreObs Spec.StoreSpec
-     Proofs.RelMap Proofs.StoreScan Proofs.StoreInv Proofs.StoreRemove Proofs.StoreRemove2.
+     Proofs.RelMap Proofs.StoreScan Proofs.StoreInv Proofs.StoreDataDef Proofs.StoreRemove Proofs.StoreRemove2.
 
 (** * rows of dataset_data_annotation_map only lose entries during removals *)
 Definition shrinks (s s' : store) : Prop :=
@@ -78,30 +78,6 @@ Proof.
   - apply IH; [apply remove_first_NoDup; exact Hnd|].
     intros y Hy. rewrite (remove_first_filter u l Hnd) in Hy. apply filter_In in Hy. destruct Hy as [Hy Hn].
     destruct (Hin y Hy) as [<-|H]; [rewrite Nat.eqb_refl in Hn; discriminate|exact H].
-Qed.
-
-(** * the relation between a store and a later one in which annotations may have lost data *)
-Definition later (s s' : store) : Prop :=
-  length (anns s') = length (anns s)
-  /\ forall y a', get_ann s' y = Some a' ->
-       exists a, get_ann s y = Some a /\ a_leaves a' = a_leaves a /\ incl (a_data a') (a_data a).
-
-Lemma later_refl s : later s s.
-Proof. split; [reflexivity|]. intros y a' H. exists a'. split; [exact H|]. split; [reflexivity|apply incl_refl]. Qed.
-Lemma later_trans s1 s2 s3 : later s1 s2 -> later s2 s3 -> later s1 s3.
-Proof.
-  intros (L1&A) (L2&B). split; [congruence|]. intros y a3 H3.
-  destruct (B y a3 H3) as (a2 & H2 & E2 & I2). destruct (A y a2 H2) as (a1 & H1 & E1 & I1).
-  exists a1. split; [exact H1|]. split; [congruence|eapply incl_tran; eassumption].
-Qed.
-Lemma Post_later ex c s s' : Post ex c s s' -> later s s'.
-Proof.
-  intros P. split; [apply (P_len _ _ _ _ P)|]. intros y a' H. exists a'.
-  split; [apply (P_sub _ _ _ _ P y a' H)|]. split; [reflexivity|apply incl_refl].
-Qed.
-Lemma later_wf s s' : later s s' -> wf_targets s -> wf_targets s'.
-Proof.
-  intros (_&A) Hwf y a' H. destruct (A y a' H) as (a & Ha & El & _). rewrite El. apply (Hwf y a Ha).
 Qed.
 
 Definition exd (ex : nat -> nat -> bool) (d x : nat) : nat -> nat -> bool :=
@@ -188,24 +164,25 @@ Qed.
 
 Record StepInv (ex : nat -> nat -> bool) (s0 s : store) : Prop := mkSI {
   SI_inv : InvE ex s; SI_wf : wf_targets s; SI_later : later s0 s;
-  SI_shr : shrinks s0 s; SI_frame : frame4 s0 s
+  SI_shr : shrinks s0 s; SI_frame : frame4 s0 s; SI_refs : ann_refs_ok s0 -> ann_refs_ok s
 }.
 
 Lemma SI_Post ex s0 s c s' : StepInv ex s0 s -> Post ex c s s' -> shrinks s s' -> StepInv ex s0 s'.
 Proof.
-  intros [A1 A2 A3 A4 A5] P Sh. constructor.
+  intros [A1 A2 A3 A4 A5 A6] P Sh. constructor.
   - exact (P_inv _ _ _ _ P).
   - exact (P_wf _ _ _ _ P).
   - eapply later_trans; [exact A3|apply (Post_later _ _ _ _ P)].
   - eapply shrinks_trans; eassumption.
   - eapply frame4_trans; [exact A5|exact (P_frame _ _ _ _ P)].
+  - intros Hr. apply (P_closed _ _ _ _ P). apply A6. exact Hr.
 Qed.
 
 Lemma strip_step_SI ex d x strict s0 s a :
   StepInv (exd ex d x) s0 s ->
   StepInv (exd ex d x) s0 (strip_step d x strict s a) /\ done_with d x (strip_step d x strict s a) a.
 Proof.
-  intros SI. pose proof SI as [HI Hwf Hl Hs Hf]. unfold strip_step. destruct strict.
+  intros SI. pose proof SI as [HI Hwf Hl Hs Hf Hrf]. unfold strip_step. destruct strict.
   - pose proof (remove_ann_Post (exd ex d x) (fuel_of s) s a HI Hwf (fuel_ok s a)) as R.
     pose proof (remove_ann_shrinks (fuel_of s) s a) as Sh.
     destruct (remove_ann (fuel_of s) s a) as [s' r]. destruct R as (P & Hlive & Hdead). cbn [fst] in *.
@@ -233,12 +210,16 @@ Proof.
       - apply (later_wf s s' Hl' Hwf).
       - eapply later_trans; eassumption.
       - eapply shrinks_trans; [exact Hs|apply shrinks_same; reflexivity].
-      - eapply frame4_trans; [exact Hf|repeat split]. }
+      - eapply frame4_trans; [exact Hf|repeat split].
+      - intros Hr y a' Hy lf Hlf. destruct Hl' as (_ & B). destruct (B y a' Hy) as (a0 & Ha0 & El & _).
+        rewrite El in Hlf. pose proof (Hrf Hr y a0 Ha0 lf Hlf) as H0.
+        destruct lf; try exact I; rewrite Hget;
+          (match goal with |- (if ?t =? a then _ else _) <> None => destruct (t =? a); [discriminate|exact H0] end). }
     assert (Hd' : done_with d x s' a).
     { unfold done_with. rewrite Hget, Nat.eqb_refl. apply uses_removed. }
     destruct (a_data an') as [|p l] eqn:Ed; [|split; assumption].
     destruct (a_data an) as [|q m]; [split; assumption|].
-    pose proof SI' as [HI' Hwf' _ _ _].
+    pose proof SI' as [HI' Hwf' _ _ _ _].
     pose proof (remove_ann_Post (exd ex d x) (fuel_of s') s' a HI' Hwf' (fuel_ok s' a)) as R.
     pose proof (remove_ann_shrinks (fuel_of s') s' a) as Sh.
     destruct (remove_ann (fuel_of s') s' a) as [s'' r]. destruct R as (P & Hlive & Hdead). cbn [fst] in *.
@@ -256,9 +237,9 @@ Proof.
   - destruct (strip_step_SI ex d x strict s0 s a SI) as (SI1 & D1).
     assert (L1 : later s (strip_step d x strict s a)).
     { (* re-derive later for one step from the step invariant relative to s itself *)
-      pose proof SI as [HI Hwf _ _ _].
+      pose proof SI as [HI Hwf _ _ _ _].
       destruct (strip_step_SI ex d x strict s s a
-                  (mkSI _ _ _ HI Hwf (later_refl s) (shrinks_refl s) (frame4_refl s))) as ([_ _ L _ _] & _). exact L. }
+                  (mkSI _ _ _ HI Hwf (later_refl s) (shrinks_refl s) (frame4_refl s) (fun H => H))) as ([_ _ L _ _ _] & _). exact L. }
     destruct (IH s0 (strip_step d x strict s a) SI1) as (SI2 & D2 & L2). cbv zeta in *.
     split; [exact SI2|]. split; [|eapply later_trans; eassumption].
     intros a' [<-|Ha']; [|apply D2; exact Ha'].
@@ -314,18 +295,26 @@ Theorem remove_data_h_Inv s d x strict :
   Inv s -> wf_targets s ->
   ((exists ds it, get_set s d = Some ds /\ slot (d_data ds) x = Some it) \/ tget (ddam s) d x = []) ->
   let s' := fst (remove_data_h s d x strict) in
-  Inv s' /\ wf_targets s' /\ later s s' /\ ress s' = ress s.
+  Inv s' /\ wf_targets s' /\ later s s' /\ ress s' = ress s
+  /\ (data_ok s -> data_ok s')
+  /\ (ann_refs_ok s -> ann_refs_ok s')
+  /\ (item_refs_ok s -> item_refs_ok s')
+  /\ (forall d', d' <> d -> get_set s' d' = get_set s d')
+  /\ (forall ds, get_set s d = Some ds -> exists ds', get_set s' d = Some ds' /\ d_keys ds' = d_keys ds
+        /\ d_kidx ds' = d_kidx ds /\ length (d_data ds') = length (d_data ds)
+        /\ (forall x', x' <> x -> slot (d_data ds') x' = slot (d_data ds) x')
+        /\ (forall k, rget (d_k2x ds') k = rget (d_k2x ds) k \/ exists k0, rget (d_k2x ds') k = remove_first x (rget (d_k2x ds) k0) /\ k = k0)).
 Proof.
   intros HI Hwf Hex. rewrite remove_data_h_unfold. cbv zeta.
   set (users := tget (ddam s) d x).
-  pose proof (mkSI (exd noex d x) s s (InvE_weaken noex d x s HI) Hwf (later_refl s) (shrinks_refl s) (frame4_refl s)) as SI0.
+  pose proof (mkSI (exd noex d x) s s (InvE_weaken noex d x s HI) Hwf (later_refl s) (shrinks_refl s) (frame4_refl s) (fun H => H)) as SI0.
   destruct (strip_fold_SI noex d x strict users s s SI0) as (SI1 & D1 & _). cbv zeta in SI1, D1.
   set (s1 := fold_left (strip_step d x strict) users s) in *.
-  pose proof SI1 as [HI1 Hwf1 L1 Sh1 F1].
+  pose proof SI1 as [HI1 Hwf1 L1 Sh1 F1 Rf1].
   destruct (remove_anns_Post (exd noex d x) (tget (damm s1) d x) s1 HI1 Hwf1) as (P2 & D2).
   pose proof (remove_anns_shrinks (tget (damm s1) d x) s1) as Sh2.
   set (s2 := remove_anns s1 (tget (damm s1) d x)) in *.
-  pose proof (SI_Post _ _ _ _ _ SI1 P2 Sh2) as SI2. pose proof SI2 as [HI2 Hwf2 L2 Sh02 F2].
+  pose proof (SI_Post _ _ _ _ _ SI1 P2 Sh2) as SI2. pose proof SI2 as [HI2 Hwf2 L2 Sh02 F2 Rf2].
   (* nothing alive uses (d, x) or targets it as metadata *)
   assert (Ru : scan s2 (uses_data d x) = []).
   { rewrite scan_scanl. destruct (scanl (anns s2) (uses_data d x)) as [|y l] eqn:E; [reflexivity|exfalso].
@@ -363,11 +352,33 @@ Proof.
   { destruct L2 as (A & B). split; [exact A|exact B]. }
   destruct F2 as (Fs & Fr & _ & _).
   assert (Hsets3 : sets s3 = sets s) by exact Fs.
+  assert (Hnouse : forall y a', get_ann s3 y = Some a' -> uses_data d x a' = false).
+  { intros y a' Hy. destruct (uses_data d x a') eqn:U; [|reflexivity].
+    assert (In y (scan s2 (uses_data d x))) by (apply scan_member; exists a'; split; assumption).
+    rewrite Ru in H. destruct H. }
+  assert (Hok3 : forall fin, anns fin = anns s3 -> sets fin = sets s -> data_ok s -> data_ok fin).
+  { intros fin E0 E1 Hok y a' Hy dx Hdx. unfold get_ann in Hy. rewrite E0 in Hy.
+    destruct L3 as (_ & B). destruct (B y a' Hy) as (a0 & Ha0 & _ & Hi).
+    destruct (Hok y a0 Ha0 dx (Hi dx Hdx)) as (ds0 & it0 & G1 & G2). exists ds0, it0.
+    unfold get_set in *. rewrite E1. tauto. }
+  assert (Hit3 : forall fin, anns fin = anns s3 -> sets fin = sets s -> ress fin = ress s -> item_refs_ok s -> item_refs_ok fin).
+  { intros fin E0 E1 E2 Hr y a' Hy lf Hlf. unfold get_ann in Hy. rewrite E0 in Hy.
+    destruct L3 as (_ & B). destruct (B y a' Hy) as (a0 & Ha0 & El & _). rewrite El in Hlf.
+    pose proof (Hr y a0 Ha0 lf Hlf) as H0.
+    destruct lf; cbn [item_ref_ok] in *; unfold get_res, get_set in *; rewrite ?E1, ?E2; exact H0. }
+  assert (Hsame3 : forall fin, sets fin = sets s ->
+            (forall d', d' <> d -> get_set fin d' = get_set s d')
+            /\ (forall ds, get_set s d = Some ds -> exists ds', get_set fin d = Some ds' /\ d_keys ds' = d_keys ds
+                  /\ d_kidx ds' = d_kidx ds /\ length (d_data ds') = length (d_data ds)
+                  /\ (forall x', x' <> x -> slot (d_data ds') x' = slot (d_data ds) x')
+                  /\ (forall k, rget (d_k2x ds') k = rget (d_k2x ds) k \/ exists k0, rget (d_k2x ds') k = remove_first x (rget (d_k2x ds) k0) /\ k = k0))).
+  { intros fin E1. split; [intros d' _; unfold get_set; rewrite E1; reflexivity|].
+    intros ds Hds. exists ds. unfold get_set in *. rewrite E1. repeat split; auto. }
   destruct (get_set s3 d) as [ds|] eqn:Eds; cbn [fst].
   2:{ (* the set does not exist: only possible with an empty row *)
       destruct Hex as [(ds0 & it0 & G1 & _)|He].
       - unfold get_set in Eds, G1. rewrite Hsets3 in Eds. congruence.
-      - split; [|split; [exact Hwf3|split; [exact L3|exact Fr]]].
+      - split; [|split; [exact Hwf3|split; [exact L3|split; [exact Fr|split; [apply Hok3; [reflexivity|exact Hsets3]|split; [exact Rf2|split; [apply Hit3; [reflexivity|exact Hsets3|exact Fr]|apply Hsame3; exact Hsets3]]]]]]].
         apply (Final s3); try reflexivity.
         pose proof (Sh02 d x) as (Hin & _). unfold s3. cbn [set_damm ddam]. rewrite He in Hin.
         destruct (tget (ddam s2) d x) as [|z l] eqn:Ez; [reflexivity|].
@@ -375,14 +386,14 @@ Proof.
   destruct (slot (d_data ds) x) as [it|] eqn:Eit; cbn [fst].
   2:{ destruct Hex as [(ds0 & it0 & G1 & G2)|He].
       - unfold get_set in Eds, G1. rewrite Hsets3 in Eds. rewrite G1 in Eds. inversion Eds; subst. congruence.
-      - split; [|split; [exact Hwf3|split; [exact L3|exact Fr]]].
+      - split; [|split; [exact Hwf3|split; [exact L3|split; [exact Fr|split; [apply Hok3; [reflexivity|exact Hsets3]|split; [exact Rf2|split; [apply Hit3; [reflexivity|exact Hsets3|exact Fr]|apply Hsame3; exact Hsets3]]]]]]].
         apply (Final s3); try reflexivity.
         pose proof (Sh02 d x) as (Hin & _). unfold s3. cbn [set_damm ddam]. rewrite He in Hin.
         destruct (tget (ddam s2) d x) as [|z l] eqn:Ez; [reflexivity|].
         exfalso. apply (Hin z (or_introl eq_refl)). }
   match goal with |- context [fold_left _ users ?s4] => set (sfour := s4) end.
   destruct (fold_trem_frame d x users sfour) as (T0&T1&T2&T3&T4&T5&T6&T7&T8). cbv zeta in *.
-  split; [|split; [|split]].
+  split; [|split; [|split; [|split; [|split; [|split; [|split; [|split]]]]]]].
   - apply Final; try (first [rewrite T0|rewrite T1|rewrite T2|rewrite T3|rewrite T4|rewrite T5|rewrite T6]; reflexivity).
     + intros d' x' Hne. rewrite (fold_trem_other d x users d' x' Hne). reflexivity.
     + rewrite fold_trem_row. unfold sfour. cbn [set_sets ddam]. unfold s3. cbn [set_damm ddam].
@@ -394,4 +405,70 @@ Proof.
   - destruct L3 as (A & B). split; [rewrite T0; exact A|]. intros y a' Hy. apply B.
     unfold get_ann in *. rewrite T0 in Hy. exact Hy.
   - rewrite T8. unfold sfour. cbn [set_sets ress]. exact Fr.
+  - (* data_ok: survivors do not use (d, x); every other data item is still there *)
+    intros Hok y a' Hy dx Hdx. unfold get_ann in Hy. rewrite T0 in Hy.
+    assert (Hy3 : get_ann s3 y = Some a') by exact Hy.
+    pose proof (Hnouse y a' Hy3) as Hn.
+    destruct L3 as (_ & B). destruct (B y a' Hy3) as (a0 & Ha0 & _ & Hi).
+    destruct (Hok y a0 Ha0 dx (Hi dx Hdx)) as (ds0 & it0 & G1 & G2).
+    assert (Hne : (fst dx =? d) && (snd dx =? x) = false).
+    { destruct ((fst dx =? d) && (snd dx =? x)) eqn:E; [|reflexivity].
+      unfold uses_data in Hn. assert (existsb (fun dx0 => (fst dx0 =? d) && (snd dx0 =? x)) (a_data a') = true)
+        by (apply existsb_exists; exists dx; tauto). congruence. }
+    unfold data_exists, get_set. rewrite T7. unfold sfour. cbn [set_sets sets]. rewrite slot_set_slot.
+    unfold get_set in G1, Eds. rewrite Hsets3 in Eds.
+    destruct (fst dx =? d) eqn:E1; cbn [andb].
+    + assert (fst dx = d) by lia. rewrite H in G1. rewrite G1 in Eds. inversion Eds; subst ds0.
+      assert (Hlt : d < length (sets s3)).
+      { rewrite Hsets3. destruct (lt_dec d (length (sets s))); [assumption|]. unfold slot in G1. rewrite nth_overflow in G1 by lia. discriminate. }
+      destruct (d <? length (sets s3)) eqn:E2; [|lia].
+      eexists. exists it0. split; [reflexivity|]. cbn [d_data]. rewrite slot_set_slot.
+      cbn [andb] in Hne. destruct (snd dx =? x) eqn:E3; [discriminate|]. cbn [andb]. exact G2.
+    + exists ds0, it0. rewrite Hsets3. tauto.
+  - intros Hr. apply (ann_refs_frame s2); [rewrite T0; reflexivity|apply Rf2; exact Hr].
+  - (* item references: nobody names data (d, x) any more; everything else is still there *)
+    intros Hr y a' Hy lf Hlf. unfold get_ann in Hy. rewrite T0 in Hy.
+    assert (Hy3 : get_ann s3 y = Some a') by exact Hy.
+    destruct L3 as (_ & B). destruct (B y a' Hy3) as (a0 & Ha0 & El & _).
+    pose proof Hlf as Hlf0. rewrite El in Hlf0. pose proof (Hr y a0 Ha0 lf Hlf0) as H0.
+    assert (Hnot : on_data d x lf = true -> False).
+    { intros Hon. assert (Hin : In y (scan s2 (has_leaf (on_data d x)))).
+      { apply scan_member. exists a'. split; [exact Hy3|]. unfold has_leaf. apply existsb_exists. exists lf. tauto. }
+      rewrite Rm in Hin. destruct Hin. }
+    assert (Hlt : d < length (sets s3)).
+    { unfold get_set in Eds. destruct (lt_dec d (length (sets s3))); [assumption|]. unfold slot in Eds. rewrite nth_overflow in Eds by lia. discriminate. }
+    assert (Hgs : forall d0, get_set (fold_left (fun s a => set_ddam s (trem (ddam s) d x a)) users sfour) d0
+                  = if d0 =? d then Some (mkset (d_id ds) (d_keys ds) (set_slot (d_data ds) x None) (d_kidx ds)
+                                           (match x_id it with Some tok => id_del (d_xidx ds) tok | None => d_xidx ds end)
+                                           (rrem (d_k2x ds) (x_key it) x))
+                    else get_set s d0).
+    { intros d0. unfold get_set. rewrite T7. unfold sfour. cbn [set_sets sets]. rewrite slot_set_slot.
+      destruct (d0 =? d) eqn:E; cbn [andb]; [|rewrite Hsets3; reflexivity].
+      destruct (d <? length (sets s3)) eqn:E2; [reflexivity|lia]. }
+    assert (Hds : get_set s d = Some ds) by (unfold get_set in *; rewrite <- Hsets3; exact Eds).
+    destruct lf; cbn [item_ref_ok] in *; try exact H0.
+    + unfold get_res in *. rewrite T8. unfold sfour, s3. cbn [set_sets set_damm ress]. rewrite Fr. exact H0.
+    + unfold get_res in *. rewrite T8. unfold sfour, s3. cbn [set_sets set_damm ress]. rewrite Fr. exact H0.
+    + unfold get_res in *. rewrite T8. unfold sfour, s3. cbn [set_sets set_damm ress]. rewrite Fr. exact H0.
+    + rewrite Hgs. destruct (d0 =? d) eqn:E; [discriminate|exact H0].
+    + destruct H0 as (ds0 & G1 & G2). rewrite Hgs. destruct (d0 =? d) eqn:E.
+      * assert (d0 = d) by lia. subst d0. rewrite Hds in G1. inversion G1; subst ds0. eexists. split; [reflexivity|]. exact G2.
+      * exists ds0. tauto.
+    + destruct H0 as (ds0 & G1 & G2). rewrite Hgs. destruct (d0 =? d) eqn:E.
+      * assert (d0 = d) by lia. subst d0. rewrite Hds in G1. inversion G1; subst ds0. eexists. split; [reflexivity|].
+        cbn [d_data]. rewrite slot_set_slot. destruct (x0 =? x) eqn:Ex; cbn [andb]; [|exact G2].
+        exfalso. apply Hnot. cbn [on_data]. rewrite Nat.eqb_refl, Ex. reflexivity.
+      * exists ds0. tauto.
+  - intros d' Hd'. unfold get_set. rewrite T7. unfold sfour. cbn [set_sets sets]. rewrite slot_set_slot.
+    destruct (d' =? d) eqn:E; [lia|]. cbn [andb]. rewrite Hsets3. reflexivity.
+  - intros ds0 Hds0. unfold get_set in Hds0, Eds. rewrite Hsets3 in Eds. rewrite Hds0 in Eds. inversion Eds; subst ds0.
+    assert (Hlt : d < length (sets s3)).
+    { rewrite Hsets3. destruct (lt_dec d (length (sets s))); [assumption|]. unfold slot in Hds0. rewrite nth_overflow in Hds0 by lia. discriminate. }
+    eexists. split.
+    { unfold get_set. rewrite T7. unfold sfour. cbn [set_sets sets]. rewrite slot_set_slot, Nat.eqb_refl.
+      destruct (d <? length (sets s3)) eqn:E2; [reflexivity|lia]. }
+    cbn [d_keys d_kidx d_data d_k2x]. split; [reflexivity|]. split; [reflexivity|]. split; [apply length_set_slot|]. split.
+    + intros x' Hx'. rewrite slot_set_slot. destruct (x' =? x) eqn:E; [lia|]. reflexivity.
+    + intros k. rewrite rget_rrem. destruct (k =? x_key it) eqn:E; [|left; reflexivity].
+      right. exists (x_key it). split; [reflexivity|lia].
 Qed.
